@@ -3,7 +3,8 @@
 # the change is applied to a scratch worktree and the check is pointed at it (VERIF_REPO).  One line per change; exit 1 if any is missed.
 # usage: tools/archive_eval.sh            all checks, all generators
 #        VERIF_CASE_PREFIX=u  tools/archive_eval.sh     only the universal frame-side cases   (au: automata side)
-cd /verif
+HERE="$(cd "$(dirname "$0")/.." && pwd)"; cd "$HERE"
+[ -d lean/.lake ] || ./setup.sh >/dev/null 2>&1
 WT=$(mktemp -d /tmp/wt_archive.XXXXXX); rmdir $WT
 git -C /repo worktree add --detach $WT HEAD >/dev/null 2>&1 || exit 2
 missed=0
@@ -17,5 +18,5 @@ for d in seeded/*; do
 done
 git -C /repo worktree remove --force $WT
 rm -rf build/*_archive
-python3 -c "import sys; sys.path.insert(0,'/verif/tools'); import vlib; vlib.extract()" >/dev/null 2>&1
+python3 -c "import sys; sys.path.insert(0,'$HERE/tools'); import vlib; vlib.extract()" >/dev/null 2>&1
 exit $missed
